@@ -159,3 +159,127 @@ Example source_pipeline_dyn_nonvacuous :
   | None => False
   end.
 Proof. vm_compute. repeat split; reflexivity. Qed.
+
+(* ================================================================== the numeric rest *)
+(* run_guard_dyn still holds one condition that is not arithmetic: OpMap with fewer than 2n values below the size.
+   There the model VM stops with the malformed-bytecode failure, so the condition follows, as (1) did, from the run
+   not ending in that failure.  What is left (run_guard_num) is arithmetic on Go ints only:
+     open scopes <= MaxInt;  OpInc: counter + 1 <= MaxInt;  OpArray / OpMap: vm.memory + n <= MaxInt;
+     OpMap: 0 <= n (a negative size is EOther in the model, an empty map in Go: map_negative_size_in_go - it cannot be
+     read off the result);  OpCall / OpCallFast / OpMethod(NilSafe): argument count <= MaxInt. *)
+Definition vm_in_scope_num (i : instr) (s : state) : bool :=
+  match i with
+  | IMap =>
+      match stk s with
+      | VNum (NInt KInt n) :: _ => (r_mem (rs s) + n <=? max_of KInt)%Z && (0 <=? n)%Z
+      | _ => true
+      end
+  | _ => vm_in_scope i s
+  end.
+
+Definition guard_num (C : code) (s : state) : bool :=
+  (Z.of_nat (List.length (scs s)) <=? max_of KInt)%Z &&
+  match fetch C (pc s) with Some (i, _) => vm_in_scope_num i s | None => true end.
+
+Fixpoint run_guard_num (fe : fenv) (cfg : config) (env : value) (C : code) (d : nat) (s : state) : bool :=
+  match d with
+  | O => guard_num C s
+  | S d' =>
+      run_guard_num fe cfg env C d' s &&
+      match run_depth fe cfg env C d' s with
+      | Running s' => run_guard_num fe cfg env C d' s'
+      | Finished _ _ => true
+      end
+  end.
+
+(* the run did not stop on the malformed-bytecode failure *)
+Definition well_formed_run (r : rres) : Prop :=
+  match r with Finished (Stop EMachine _ _) _ => False | _ => True end.
+
+Lemma well_formed_aligned r : well_formed_run r -> aligned r.
+Proof. destruct r as [s|[v s|e l s] last]; cbn; auto. destruct e; auto; contradiction. Qed.
+
+Section GuardNum.
+Variable fe : fenv.
+Variable cfg : config.
+Variable env : value.
+Variable C : code.
+
+Lemma guard_dyn_of_num s :
+  guard_num C s = true -> well_formed_run (tick fe cfg env C s) -> guard_dyn C s = true.
+Proof.
+  unfold guard_num, guard_dyn, vm_in_scope_at. intros G W. apply andb_prop in G. destruct G as [G1 G2].
+  rewrite G1. cbn [andb].
+  destruct (fetch C (pc s)) as [[i l]|] eqn:F; [|reflexivity].
+  destruct i; try exact G2.
+  (* IMap *)
+  cbn [vm_in_scope_num vm_in_scope] in *.
+  destruct (stk s) as [|v st0] eqn:Es; [reflexivity|].
+  destruct v as [|b|[k n|k f]|x|t xs|t|kt et m|nm ptr fs|t|kt et|nm t|nm v|dsc]; try reflexivity.
+  destruct k; try reflexivity.
+  apply andb_prop in G2. destruct G2 as [M N]. rewrite M, N. cbn [andb].
+  destruct (Z.leb_spec (2 * n) (Z.of_nat (List.length st0))) as [_|Hlt]; [reflexivity|].
+  exfalso. unfold tick in W. pose proof (fetch_lt _ _ _ F) as Hp. apply Nat.ltb_lt in Hp. rewrite Hp in W.
+  unfold step in W. rewrite F, Es in W. cbn [as_int] in W.
+  apply Z.leb_le in N. destruct (Z.ltb_spec n 0) as [Hn|_]; [lia|].
+  destruct (Z.ltb_spec (Z.of_nat (List.length st0)) (2 * n)) as [_|Hge]; [exact W|lia].
+Qed.
+
+Lemma run_guard_dyn_of_num : forall d s,
+  run_guard_num fe cfg env C d s = true -> well_formed_run (run_depth fe cfg env C d s) ->
+  run_guard_dyn fe cfg env C d s = true.
+Proof.
+  induction d as [|d IH]; intros s G W.
+  - cbn [run_guard_num run_guard_dyn run_depth] in *. apply guard_dyn_of_num; assumption.
+  - cbn [run_guard_num run_guard_dyn run_depth] in *. apply andb_prop in G. destruct G as [G1 G2].
+    destruct (run_depth fe cfg env C d s) as [s1|r last] eqn:E.
+    + assert (W0 : well_formed_run (run_depth fe cfg env C d s)) by (rewrite E; exact I).
+      rewrite (IH s G1 W0), (IH s1 G2 W). reflexivity.
+    + assert (W0 : well_formed_run (run_depth fe cfg env C d s)) by (rewrite E; exact W).
+      rewrite (IH s G1 W0). reflexivity.
+Qed.
+
+Theorem run_guard_of_num_init d r :
+  cfg_int cfg = true -> run_code fe cfg env C d = Some r -> not_machine r ->
+  run_guard_num fe cfg env C d init_state = true -> run_guard fe cfg env C d init_state = true.
+Proof.
+  intros Hc Hr Hn G. eapply run_guard_of_dyn_init; try eassumption.
+  apply run_guard_dyn_of_num; [exact G|]. unfold run_code in Hr.
+  destruct (run_depth fe cfg env C d init_state) as [s|r0 last]; [exact I|]. injection Hr as ->.
+  unfold well_formed_run, not_machine in *. destruct r as [v s|e l s]; [exact I|]. destruct e; try exact I. contradiction.
+Qed.
+End GuardNum.
+
+(* the capstone under arithmetic conditions only *)
+Theorem source_pipeline_correct_num :
+  forall fe cfg env c e dc before,
+    fn_no_machine fe -> compilable e = true -> esize e <= dc -> cfg_int cfg = true ->
+    exists P, gen_compile_program schemes dc (c_mapenv cfg) c e = Some P /\
+    exists d0, forall d, d0 <= d ->
+      run_guard_num fe cfg env P d init_state = true ->
+      option_map erase_stop_mem (interp_run fe cfg env P vm_src d before)
+      = Some (erase_stop_mem (run_ref fe cfg env c e)).
+Proof.
+  intros fe cfg env c e dc before Hf Hc Hsz Hcfg.
+  exists (compile_program (c_mapenv cfg) c e). split.
+  - apply gen_compile_program_is_compile_program; assumption.
+  - destruct (run_program_ref fe cfg env c e Hf Hc) as [d0 Hd0]. exists d0. intros d Hd G.
+    assert (G' : run_guard fe cfg env (compile_program (c_mapenv cfg) c e) d init_state = true).
+    { eapply run_guard_of_num_init; [exact Hcfg|exact (Hd0 d Hd)|apply run_ref_not_machine; exact Hf|exact G]. }
+    rewrite (vm_run_is_source_run fe cfg env _ d before G'), (Hd0 d Hd). reflexivity.
+Qed.
+
+(* the stack-depth part of OpMap is needed on arbitrary code: BrVMSteps.w_mapkey_state (map_underflow_key_order)
+   meets the arithmetic conditions and not vm_in_scope; the model stops there with EMachine *)
+Example map_underflow_is_not_numeric :
+  vm_in_scope_num IMap w_mapkey_state = true /\ vm_in_scope IMap w_mapkey_state = false /\
+  step w_fe w_cfg VNil [(IMap, noloc)] w_mapkey_state = Crash EMachine noloc rs0.
+Proof. vm_compute. repeat split; reflexivity. Qed.
+
+Example source_pipeline_num_nonvacuous :
+  match cap_code with
+  | Some P => run_guard_num w_fe w_cfg VNil P 9 init_state = true /\
+              run_guard_num w_fe (mkCfg false 7) VNil P 9 init_state = true
+  | None => False
+  end.
+Proof. vm_compute. split; reflexivity. Qed.
